@@ -312,7 +312,9 @@ void SPxBoundFlippingRT<R>::collectBreakpointsMax(
    R curVal;
    const int* last;
 
-   minVal = (nBp == 0) ? R(infinity) : breakpoints[minIdx].val;
+   // (a breakpoint value of infinity or more does not compare below the initial minimum: the first stored breakpoint
+   // always becomes the current minimum, otherwise minIdx stays -1 and is used as an index)
+   minVal = (nBp == 0 || minIdx < 0) ? R(infinity) : breakpoints[minIdx].val;
 
    last = idx + nnz;
 
@@ -333,7 +335,7 @@ void SPxBoundFlippingRT<R>::collectBreakpointsMax(
             breakpoints[nBp].src = src;
             breakpoints[nBp].val = curVal;
 
-            if(curVal < minVal)
+            if(curVal < minVal || minIdx < 0)
             {
                minVal = curVal;
                minIdx = nBp;
@@ -354,7 +356,7 @@ void SPxBoundFlippingRT<R>::collectBreakpointsMax(
             breakpoints[nBp].src = src;
             breakpoints[nBp].val = curVal;
 
-            if(curVal < minVal)
+            if(curVal < minVal || minIdx < 0)
             {
                minVal = curVal;
                minIdx = nBp;
@@ -389,7 +391,9 @@ void SPxBoundFlippingRT<R>::collectBreakpointsMin(
    R curVal;
    const int* last;
 
-   minVal = (nBp == 0) ? R(infinity) : breakpoints[minIdx].val;
+   // (a breakpoint value of infinity or more does not compare below the initial minimum: the first stored breakpoint
+   // always becomes the current minimum, otherwise minIdx stays -1 and is used as an index)
+   minVal = (nBp == 0 || minIdx < 0) ? R(infinity) : breakpoints[minIdx].val;
 
    last = idx + nnz;
 
@@ -411,7 +415,7 @@ void SPxBoundFlippingRT<R>::collectBreakpointsMin(
             breakpoints[nBp].src = src;
             breakpoints[nBp].val = curVal;
 
-            if(curVal < minVal)
+            if(curVal < minVal || minIdx < 0)
             {
                minVal = curVal;
                minIdx = nBp;
@@ -432,7 +436,7 @@ void SPxBoundFlippingRT<R>::collectBreakpointsMin(
             breakpoints[nBp].src = src;
             breakpoints[nBp].val = curVal;
 
-            if(curVal < minVal)
+            if(curVal < minVal || minIdx < 0)
             {
                minVal = curVal;
                minIdx = nBp;
